@@ -30,8 +30,12 @@ def pfSimple (t : Bytes) : Bool :=
 
 def hex16 (x : UInt64) : String := toHex (le64 x).reverse
 
+/-- FNV-1a 64 fingerprint of long payloads (not the CRC-64: a payload ending in its own CRC has CRC 0) -/
+def fnv1a (v : Bytes) : UInt64 :=
+  v.foldl (fun h b => (h ^^^ b.toUInt64) * 0x100000001b3) 0xcbf29ce484222325
+
 def valRepr (v : Bytes) : String :=
-  if v.length ≤ 40 then hexOrDash v else s!"{v.length}:{hex16 (Spec.Crc64.crc64 v)}"
+  if v.length ≤ 40 then hexOrDash v else s!"{v.length}:{hex16 (fnv1a v)}"
 
 def showEntry (e : Entry) : String :=
   s!" E[{e.db},{hexOrDash e.key},{e.type.toNat},{e.expireAt},{e.idle},{e.freq},{e.needReadLen},{e.realMemberCount},{if e.valueUnspecified then "?" else valRepr e.value}]"
